@@ -8,5 +8,6 @@ CONSTANTS
   TightCap = TRUE
   CopyArgs = TRUE
   HtmlDep = FALSE
+  LazyInit = FALSE
 INVARIANTS Emit Deterministic SharedReadOnly NoBlocking LockSane
 CHECK_DEADLOCK FALSE
